@@ -185,7 +185,7 @@ func (V *Verifier) frameCheck(fn *ssa.Function) []frameFinding {
 				for _, cn := range cons {
 					if cn == nil {
 						callee := cc.StaticCallee()
-						if callee != nil && callee.Pkg != nil && (callee.Pkg == V.P.Bexpr || callee.Pkg == V.P.Grammar) {
+						if callee != nil && V.P.repoPkg(callee) != nil {
 							// no contract: the zero-annotation write-effect analysis says which
 							// writes of the callee (and its callees) reach memory it did not
 							// allocate itself; none = nothing visible to the caller changes
